@@ -214,15 +214,29 @@ def run(ctx):
         c = g.cond
         if c[0] != "cmp" or c[1] not in ("lt", "le", "gt", "ge") or len(c[2]) != 2:
             continue
+        # which edge rejects?
+        err_true = common.fail_edge_only_errors(P, h, g.edge(True))[0]
+        err_false = common.fail_edge_only_errors(P, h, g.edge(False))[0]
+        if err_true == err_false:
+            continue
         a, b = c[2]
         kind = c[1]
         if kind in ("gt", "ge"):
             a, b = b, a
             kind = {"gt": "lt", "ge": "le"}[kind]
-        # now: a (kind) b ; expected  growth < minimum  (true => error)
+        if err_false:
+            # rejects when NOT (a kind b):  not(a < b) == b <= a ; not(a <= b) == b < a
+            a, b = b, a
+            kind = {"lt": "le", "le": "lt"}[kind]
+        # now: rejects iff  a (kind) b ; expected  growth < minimum
         subs = [x for x in common.walk(a) if x[0] == "call" and isinstance(x[3], str) and generic_path(x[3]).endswith("Uint128::checked_sub")]
         ar, br = set(ctx.roots(a)), set(ctx.roots(b))
         if len(subs) != 1 or len(ar) != 1 or not list(ar)[0].startswith("C:cosmwasm_std::Uint128::checked_sub@"):
+            # maybe the roles are the other way round (minimum <(=) growth rejecting): report as operand confusion below
+            subs2 = [x for x in common.walk(b) if x[0] == "call" and isinstance(x[3], str) and generic_path(x[3]).endswith("Uint128::checked_sub")]
+            if len(subs2) == 1:
+                found = True
+                r4.fail("C11.R4:direction", h.path, common.span_of_block_term(h, g.b), "the assertion rejects when minimum %s growth (expected: reject iff growth < minimum)" % ("<" if kind == "lt" else "<="))
             continue
         found = True
         sub = subs[0]
@@ -231,7 +245,7 @@ def run(ctx):
         mm = re.match(r"^P:%s#(\d+)$" % re.escape(h.path), "|".join(sorted(br)))
         where = common.span_of_block_term(h, g.b)
         if kind != "lt":
-            r4.fail("C11.R4:non-strict", h.path, where, "growth is compared with `<=` (an exactly sufficient delivery would be rejected / boundary changed)")
+            r4.fail("C11.R4:non-strict", h.path, where, "rejects when growth <= minimum (an exactly sufficient delivery would be rejected)")
         elif not bal or set(ctx.roots(bal[0][4][0])) != {P_(h, asset_p)} or set(ctx.roots(bal[0][4][3])) != {P_(h, recv_p)} or len(set(ctx.roots(sub[4][0]))) != 1:
             r4.fail("C11.R4:balance", h.path, where, "the minuend is not the current balance of (asset_info, receiver): %s" % ctx.show(sub[4][0], 4))
         elif not pm or not mm or pm.group(1) == mm.group(1):
@@ -239,18 +253,15 @@ def run(ctx):
         else:
             prev_p, min_p = int(pm.group(1)), int(mm.group(1))
             pg = common.propagated(P, h, sub[2])
-            if pg is None:
-                r4.fail("C11.R4:sub-unchecked", h.path, where, "the balance difference can underflow silently (checked_sub result not propagated)")
-            fe, pe = g.edge(True), g.edge(False)
-            ok, why = common.fail_edge_only_errors(P, h, fe)
-            if not ok:
-                r4.fail("C11.R4:fail-edge", h.path, where, "growth < minimum does not abort: %s" % why)
+            if pg is None or not common.fail_edge_only_errors(P, h, pg[2])[0]:
+                r4.fail("C11.R4:sub-unchecked", h.path, where, "the balance difference can underflow silently (checked_sub error not turned into a failure)")
+            pe = g.edge(not err_true)
             for (b2, i2, cls, v2) in common.ok_exit_blocks(P, h):
                 if not h.body.edge_dominates(pe, b2):
                     r4.fail("C11.R4:ok-unguarded", h.path, common.span_of_block_term(h, b2), "a success exit is reachable without passing the minimum-receive comparison")
             if r4.status == "pass":
-                r4.site("lt(query_pool(asset, receiver) - arg%d, arg%d) => Err at %s" % (prev_p, min_p, where))
-                r4.site("difference by aborting checked_sub, error propagated")
+                r4.site("rejects iff query_pool(asset, receiver) - arg%d < arg%d, at %s" % (prev_p, min_p, where))
+                r4.site("difference by aborting checked_sub, error turned into a failure")
                 r4.site("all success exits behind the comparison")
     if not found:
         r4.fail("C11.R4:no-comparison", h.path, h.span, "no comparison of a balance difference with the minimum found in the assertion handler")
